@@ -106,6 +106,24 @@ def oracle_ld(case, obs):
     return None
 
 
+def model_req_ld(case):
+    return {"op": "clumpLd", "cand": case["cand"], "index": case["index"]}
+
+
+def equal_ld(a, b):
+    """Pearson mode against the Lean statistic (exact integers); the Exact mode is judged by the oracle alone"""
+    if "error" in a:
+        return False
+    if "pearson" not in b:
+        return True
+    got, m = a["r2"], b["pearson"]
+    if m["kind"] == "empty":
+        return got == 0
+    if m["kind"] == "undefined":
+        return got is not None and math.isnan(got)
+    return got is not None and not math.isnan(got) and abs(got - m["num2"] / m["den"]) <= 1e-9
+
+
 def describe_ld(case, obs):
     r = obs.get("r2") if isinstance(obs, dict) else None
     k = "nan" if (r is not None and isinstance(r, float) and math.isnan(r)) else ("zero" if r == 0 else "value")
@@ -450,7 +468,7 @@ def oracle_overlap(case, obs):
 CHECK = Check(
     id="C17",
     title="clump output is exactly greedy LD clumping and always terminates",
-    theorems=["C17.index_order", "C17.members_exact", "C17.load_filters", "C17.step_shrinks", "C17.clumps_disjoint", "C17.clumps_from_table", "C17.overlapping_samples_exact", "C17R.pearson_r2_in_unit_interval", "C17R.exact_r2_in_unit_interval", "C17R.cubic_root_no_double_het"],
+    theorems=["C17.index_order", "C17.members_exact", "C17.load_filters", "C17.step_shrinks", "C17.clumps_disjoint", "C17.clumps_from_table", "C17.overlapping_samples_exact", "C17.ld_over_samples_without_missing_calls", "C17.ld_symmetric", "C17R.pearson_r2_fraction_in_unit_interval", "C17R.pearson_r2_in_unit_interval", "C17R.exact_r2_in_unit_interval", "C17R.cubic_root_no_double_het"],
     imports=("HapModel", "HapReal"),
     build_targets=("HapModel", "HapReal"),
     sections=[
@@ -472,9 +490,12 @@ CHECK = Check(
         ),
         Section(
             name="compute_ld",
-            theorems=["C17R.pearson_r2_in_unit_interval", "C17R.exact_r2_in_unit_interval", "C17R.cubic_root_no_double_het"],
+            theorems=["C17.ld_over_samples_without_missing_calls", "C17.ld_symmetric", "C17R.pearson_r2_fraction_in_unit_interval", "C17R.pearson_r2_in_unit_interval", "C17R.exact_r2_in_unit_interval", "C17R.cubic_root_no_double_het"],
             gen=gen_ld,
             impl=impl_ld,
+            model_req=model_req_ld,
+            model_obs=lambda c, r: {"pearson": r} if c["ld"] == "Pearson" else {},
+            equal=equal_ld,
             oracle=oracle_ld,
             describe=describe_ld,
             nontrivial=lambda c, o: C.jdump(c) if isinstance(o, dict) and isinstance(o.get("r2"), float) and o["r2"] == o["r2"] and o["r2"] != 0 else None,
